@@ -37,7 +37,8 @@ META = {
     "note": "Challenge = the header's field value, i.e. after the HTTP layer removed leading/trailing spaces and tabs (RFC "
             "9110 5.5): a 64-byte wire value that starts with a space is a well-formed 63-character challenge.  Bytes that "
             "HTTP does not allow in a field value (0x01, 0x7f) are outside the property's quantifier: for them only "
-            "'no response header' is compared, not the status hyper chooses.  One deviating byte per challenge; lengths from a "
+            "'no response header' is compared, not the status hyper chooses; likewise for requests that are not GET /generate_204 "
+            "(the model says 404, only the absence of the echo is compared).  One deviating byte per challenge; lengths from a "
             "boundary set up to 80 (thorough: every length 0..80); concrete bytes of a class drawn with the seed.",
     "design_ref": "§6 C13",
 }
@@ -51,6 +52,8 @@ CLASS_BYTES = {
     "space": b" ", "tab": b"\t", "at": b"@", "lbracket": b"[", "backtick": b"`", "lbrace": b"{", "slash": b"/",
     "colon": b":", "comma": b",", "plus": b"+", "tilde": b"~", "bang": b"!",
     "high80": bytes([0x80]), "highff": bytes([0xFF]),
+    "punct": bytes(b for b in range(0x21, 0x7F) if not (chr(b).isalnum() or chr(b) in ".-_@[`{/:,+~!")),
+    "high": bytes(range(0x81, 0xFF)),
     "ctl01": bytes([0x01]), "del7f": bytes([0x7F]),
 }
 CTL = ("ctl01", "del7f")
@@ -58,7 +61,7 @@ HDR = {"once": b"X-Iroh-Challenge", "twice": b"X-Iroh-Challenge", "lowername": b
        "uppername": b"X-IROH-CHALLENGE"}
 
 ALL_BADS = ["space", "tab", "at", "lbracket", "backtick", "lbrace", "slash", "colon", "comma", "plus", "tilde", "bang",
-            "high80", "highff", "ctl01", "del7f"]
+            "high80", "highff", "punct", "high", "ctl01", "del7f"]
 
 
 def tla_set(items):
@@ -143,6 +146,8 @@ def mismatch(c, o, chal):
         return ("echo-unexpected", "no X-Iroh-Response header", repr(got_vals))
     if req["bad"] in CTL and req["hdr"] != "absent":
         return None           # status is hyper's choice for bytes HTTP forbids (see META note)
+    if exp["status"] != 204:
+        return None           # not the probe (other method / path): the property only forbids an echo, any status will do
     if o["status"] != exp["status"]:
         return ("status", str(exp["status"]), str(o["status"]))
     return None
